@@ -1103,7 +1103,8 @@ class PandasModelBase(
         for c in common_cols:
             if c not in merged_key_cols:
                 is_null = res[c].isnull()
-                res.loc[is_null, c] = res.loc[is_null, c + "_tmp_right_col"]
+                if is_null.any():
+                    res.loc[is_null, c] = res.loc[is_null, c + "_tmp_right_col"]
                 res = res.drop(c + "_tmp_right_col", axis=1, inplace=False)
         how = self.standardize_join_code_(op.jointype)
         unmatched = []
